@@ -84,6 +84,10 @@ class SymCtx(BaseCtx):
     def want_model(self):
         symx.eng().path.want_model = True
 
+    def concrete(self, x):
+        """fork over the values of a small-range symbolic int"""
+        return x.concretize() if isinstance(x, SInt) else x
+
     def sym_zone(self, key, Ts, offs):
         """named zone with transitions at Ts (seconds from the ordinal origin) and offsets offs"""
         for i in range(len(Ts)):
@@ -155,6 +159,9 @@ class RealCtx(BaseCtx):
 
     def want_model(self):
         pass
+
+    def concrete(self, x):
+        return x
 
     def sym_zone(self, key, Ts, offs):
         from . import tzif
